@@ -2626,18 +2626,6 @@ def transform_compressible(items, constants, labels):
             return imm != value
         return inner
 
-    # for compressed forms that have no immediate field: nothing is left to
-    # re-check at encode time, so the value must not depend on a label
-    # (labels may still move after this decision has been made)
-    def ImmEqualsWithoutLabels(value):
-        def inner(i, p, e):
-            try:
-                imm = i.imm.eval(p, constants, i.line)
-            except AssemblerError:
-                return False
-            return imm == value
-        return inner
-
     def ImmDivisibleBy(value):
         def inner(i, p, e):
             imm = i.imm.eval(p, e, i.line)
@@ -2686,7 +2674,7 @@ def transform_compressible(items, constants, labels):
             NameEquals('addi'),
             RegEquals('rd', 0),
             RegEquals('rs1', 0),
-            ImmEqualsWithoutLabels(0),
+            ImmEquals(0),
         ],
         'c.addi': [
             NameEquals('addi'),
@@ -2813,7 +2801,7 @@ def transform_compressible(items, constants, labels):
             NameEquals('jalr'),
             RegEquals('rd', 0),
             RegNotEquals('rs1', 0),
-            ImmEqualsWithoutLabels(0),
+            ImmEquals(0),
         ],
         'c.mv': [
             NameEquals('add'),
@@ -2825,7 +2813,7 @@ def transform_compressible(items, constants, labels):
             NameEquals('addi'),
             RegNotEquals('rd', 0),
             RegNotEquals('rs1', 0),
-            ImmEqualsWithoutLabels(0),
+            ImmEquals(0),
         ],
         'c.ebreak': [
             NameEquals('ebreak'),
@@ -2841,7 +2829,7 @@ def transform_compressible(items, constants, labels):
             NameEquals('jalr'),
             RegEquals('rd', 1),
             RegNotEquals('rs1', 0),
-            ImmEqualsWithoutLabels(0),
+            ImmEquals(0),
         ],
         'c.swsp': [
             NameEquals('sw'),
@@ -2862,6 +2850,18 @@ def transform_compressible(items, constants, labels):
             position += item.size()
             new_items.append(item)
             continue
+
+        # an immediate that depends on a label can still change after this point
+        # (labels keep moving while items shrink), so a choice made on its current
+        # value may not hold at encode time. Only pc-relative branch / jump offsets
+        # are safe to decide early: those distances can only get smaller.
+        if hasattr(item, 'imm') and not isinstance(item, (BTypeInstruction, JTypeInstruction)):
+            try:
+                item.imm.eval(position, constants, item.line)
+            except AssemblerError:
+                position += item.size()
+                new_items.append(item)
+                continue
 
         # check if any set of criteria is all true for this item
         compressed = None
